@@ -445,7 +445,7 @@ def r3(ctx, e, d):
                   'conversions %s do not advance the format cursor: the same directive is parsed again' % notadv)
 
 
-def r4(ctx, e, d):
+def r4(ctx, e, d, rule='R4', example='a %.3s precision also truncates the following %s'):
     """upward-exposed uses in the directive loop"""
     for f in (e, d):
         loops = f.natural_loops()
@@ -493,9 +493,9 @@ def r4(ctx, e, d):
             hits = [h for h in hits if h[0].blk in body]
             if hits:
                 exposed.add(v)
-        ctx.check('R4', '%s:no-carried-directive-state' % f.name, not exposed, f,
+        ctx.check(rule, '%s:no-carried-directive-state' % f.name, not exposed, f,
                   'every per-directive local is (re)initialised before it is read in an iteration',
-                  'state carried from one directive into the next: %s (e.g. a %%.3s precision also truncates the following %%s)' % sorted(exposed))
+                  'state carried from one directive into the next: %s (e.g. %s)' % (sorted(exposed), example))
 
 
 def r5(ctx):
